@@ -2,7 +2,8 @@ import Gimli.Prim.Basic
 /-!
 # Model of address handling in `write::ConvertLineProgram` + `write::LineProgram`
 (`src/write/line.rs`, HEAD of /repo with the `fix:`es for `DW_LNE_set_address` inside a sequence,
-for an end address given by `DW_LNE_set_address`, and for tombstone addresses)
+for an end address given by `DW_LNE_set_address`, for tombstone addresses and for the end of a
+partially tombstoned sequence)
 
 Only the address dimension is modelled (the other registers are copied row by row and are covered
 by the differential run): a line program is abstracted to the events that touch the address.
@@ -25,15 +26,19 @@ abbrev Rows := List (Nat × Bool)
 def isTomb (T addr a : Nat) : Bool := decide (a < addr) || decide (T ≤ a)
 
 /-- the reader (`LineRows::next_row` over `LineRow::execute`, src/read/line.rs): the address
-register and the tombstone flag. While tombstoned the address does not move and rows are skipped —
-including the `end_sequence` row, whose reset still happens (finding C04-1). -/
-def readRows (T : Nat) : (addr : Nat) → (tomb : Bool) → List Ins → Rows
-  | _, _, [] => []
-  | addr, _, .setAddress a :: is =>
-      if isTomb T addr a then readRows T addr true is else readRows T a false is
-  | addr, tomb, .advance d :: is => readRows T (if tomb then addr else addr + d) tomb is
-  | addr, tomb, .row :: is => if tomb then readRows T addr tomb is else (addr, false) :: readRows T addr tomb is
-  | addr, tomb, .endSeq :: is => if tomb then readRows T 0 false is else (addr, true) :: readRows T 0 false is
+register, the tombstone flag and `in_sequence` (`opn`: a row was returned for the current
+sequence). While tombstoned the address does not move and rows are skipped — except the
+`end_sequence` row of a sequence that has returned rows, which is returned at the address where
+the tombstone started. -/
+def readRows (T : Nat) : (addr : Nat) → (tomb opn : Bool) → List Ins → Rows
+  | _, _, _, [] => []
+  | addr, _, opn, .setAddress a :: is =>
+      if isTomb T addr a then readRows T addr true opn is else readRows T a false opn is
+  | addr, tomb, opn, .advance d :: is => readRows T (if tomb then addr else addr + d) tomb opn is
+  | addr, tomb, opn, .row :: is =>
+      if tomb then readRows T addr tomb opn is else (addr, false) :: readRows T addr tomb true is
+  | addr, tomb, opn, .endSeq :: is =>
+      if tomb && !opn then readRows T 0 false false is else (addr, true) :: readRows T 0 false false is
 
 /-- events handed from `ConvertLineProgram::read_row` to the writer -/
 inductive Ev where
@@ -43,21 +48,25 @@ inductive Ev where
   deriving Repr, DecidableEq
 
 /-- `ConvertLineProgram::read_row`, address part: `rel` is `from_row.address()` (restarted at 0 by
-every `DW_LNE_set_address`, and advancing even while a tombstone is skipped), `fa` the field
+every accepted `DW_LNE_set_address`, frozen while a tombstone is skipped), `fa` the field
 `from_address`, `tomb` the local `tombstone`, `pending` the field `address` (handed over before
-the next row, or before the end of the sequence) -/
-def convert (T : Nat) : (rel fa : Nat) → (tomb : Bool) → (pending : Option Nat) → List Ins → List Ev
-  | _, _, _, _, [] => []
-  | rel, fa, tomb, p, .setAddress a :: is =>
+the next row, or before the end of the sequence), `opn` the field `in_sequence` -/
+def convert (T : Nat) : (rel fa : Nat) → (tomb : Bool) → (pending : Option Nat) → (opn : Bool) → List Ins → List Ev
+  | _, _, _, _, _, [] => []
+  | rel, fa, tomb, p, opn, .setAddress a :: is =>
       let fa' := if tomb then fa else fa + rel
-      if isTomb T fa' a then convert T 0 fa' true p is else convert T 0 a false (some a) is
-  | rel, fa, tomb, p, .advance d :: is => convert T (rel + d) fa tomb p is
-  | rel, fa, true, p, .row :: is => convert T rel fa true p is
-  | rel, fa, false, some a, .row :: is => .setAddress a :: .row rel :: convert T rel fa false none is
-  | rel, fa, false, none, .row :: is => .row rel :: convert T rel fa false none is
-  | _, _, true, _, .endSeq :: is => convert T 0 0 false none is
-  | rel, _, false, some a, .endSeq :: is => .setAddress a :: .endSeq rel :: convert T 0 0 false none is
-  | rel, _, false, none, .endSeq :: is => .endSeq rel :: convert T 0 0 false none is
+      if isTomb T fa' a then convert T rel fa' true p opn is else convert T 0 a false (some a) opn is
+  | rel, fa, tomb, p, opn, .advance d :: is => convert T (if tomb then rel else rel + d) fa tomb p opn is
+  | rel, fa, tomb, p, opn, .row :: is =>
+      if tomb then convert T rel fa tomb p opn is
+      else match p with
+        | some a => .setAddress a :: .row rel :: convert T rel fa false none true is
+        | none => .row rel :: convert T rel fa false none true is
+  | rel, _, tomb, p, opn, .endSeq :: is =>
+      if tomb && !opn then convert T 0 0 false none false is
+      else match p with
+        | some a => .setAddress a :: .endSeq rel :: convert T 0 0 false none false is
+        | none => .endSeq rel :: convert T 0 0 false none false is
 
 /-- `LineProgram::{set_address, generate_row, end_sequence}` and `LineProgram::write`, address
 part: the instructions of the written program. `prev` is the previous row's offset (restarted by
